@@ -462,6 +462,9 @@ func (a *Allocation) Decode(r io.Reader) error {
 		}
 		a.Backends[i] = wallet.BackendID(id)
 		asset := NewAsset(a.Backends[i])
+		if asset == nil {
+			return errors.Errorf("unknown backend id %d for asset %d", id, i)
+		}
 		if err := perunio.Decode(r, asset); err != nil {
 			return errors.WithMessagef(err, "decoding asset %d", i)
 		}
